@@ -289,6 +289,8 @@ def h_chain(case, pick, st, stats):
         else:
             outl = out
         try:
+            if len(json.dumps(outl)) > trmod.MAX_VALUE_JSON:
+                break                                    # combinatorial blow-up: the chain stops before TLC's JSON reader does
             ev.update(ok=1, out=trmod._tag(outl))
         except (ValueError, TypeError):
             break
